@@ -12,6 +12,7 @@ result R and freshly built arguments A:
            snapshot of X must not move; then the sides swap.
 """
 
+from ..grammar import ALL_KINDS
 from ..history import HistoryCheck, is_inplace, method_kind, state_digest
 from ..snap import Snapshot, is_spec_instance, mutable_nodes
 from ..world import OpGen, SkipOp
@@ -73,9 +74,13 @@ class C02(HistoryCheck):
     RUNS = {"quick": 1500, "thorough": 30000}
     # init=False attributes are never initialised on instances, so instance.attr *is* the class-level default
     # object and in-place element helpers edit it for every instance (C08 territory, and excluded there too).
-    PROFILE = {"allow_frozen": False, "allow_class_dnc": False, "allow_init_false": False, "allow_mutable_props": True}
+    PROFILE = {"allow_frozen": False, "allow_class_dnc": False, "allow_init_false": False, "allow_mutable_props": True,
+               "kinds": ALL_KINDS + ["any", "list_optleaf"]}
+    # untyped attributes holding spec instances inside immutable containers (a tuple is hashable, not immutable in depth)
+    ANY_EXTRA = [["tuple", [["leaf", {"p": 2}], 1]], ["tuple", [["list", [["leaf", {}]]], "s"]],
+                 ["list", [["leaf", {"q": "z"}], ["tuple", [["leaf", {"p": 5}]]]]], ["dict", [["a", ["tuple", [["kitem", {"k": "a"}]]]]]]]
     # the property quantifies over "transforms that return new objects": functions handing back their input are out
-    OPGEN = {"p_bad": 0.1, "p_inplace": 0.2, "exclude_fns": ["ident", "missing", "rev"], "p_alias": 0.4,
+    OPGEN = {"p_bad": 0.1, "p_inplace": 0.2, "exclude_fns": ["ident", "missing", "rev", "tolist"], "p_alias": 0.4, "any_extra": ANY_EXTRA,
              "weights": {"new": 2, "scalar": 6, "element": 8, "toplevel": 3, "set": 3, "del": 1, "get": 3,
                          "deepcopy": 2.5, "mutate": 0}}
     N_OPS = {"quick": (5, 14), "thorough": (8, 24)}
@@ -137,7 +142,7 @@ class C02(HistoryCheck):
         if rid not in world.insts or world.insts[rid] is not R or op["on"].get("path"):
             return out
         if not ctx.replay:
-            gen = OpGen(ctx.src, world, {"p_bad": 0.1, "p_inplace": 1.0, "p_if_false": 0.0, "exclude_fns": ["ident", "missing", "rev"],
+            gen = OpGen(ctx.src, world, {"p_bad": 0.1, "p_inplace": 1.0, "p_if_false": 0.0, "exclude_fns": ["ident", "missing", "rev", "tolist"],
                                          "weights": {"scalar": 4, "element": 8, "toplevel": 2, "set": 3, "del": 1,
                                                      "nested": 4, "mutate": 3}})
             op["tails"] = []
